@@ -18,6 +18,7 @@ import (
 type PropConfig struct {
 	Funcs          []string `json:"funcs"`           // functions verified against their contracts
 	Safety         []string `json:"safety"`          // functions (or package prefixes ending in "...") swept for run-time panics
+	BoundedTests   []BoundedTest `json:"bounded_tests"` // bounded stand-ins (Go tests run on the real code), reported as bounded, never as proved
 	FrameChecks    []FrameCheck `json:"frame_checks"` // static frame analysis: the function (and everything it can call) writes no pre-existing object in the listed heaps
 	Contracts      []string `json:"contracts"`       // verified with callees used through their contracts; callees without contract are opaque (may-write set havoced), nothing is inlined
 	Shallow        []string `json:"shallow"`         // verified against contracts without inlining callees (callees without contract: may-write set havoced)
@@ -70,6 +71,15 @@ type FrameCheck struct {
 	Forbid []string `json:"forbid"`
 	Why    string   `json:"why"`
 	Tags   []string `json:"tags"`
+}
+
+// BoundedTest: a bounded check of code the contracts do not reach; Bound states what is enumerated.
+type BoundedTest struct {
+	Name  string `json:"name"`
+	File  string `json:"file"`
+	Pkg   string `json:"pkg"`
+	Run   string `json:"run"`
+	Bound string `json:"bound"`
 }
 
 type oblResult struct {
@@ -537,6 +547,27 @@ func cmdCheck(args []string) int {
 			fmt.Printf("KNOWN-FINDING-GONE: property=%s %s witness no longer fails\n", *prop, f.ID)
 		}
 	}
+	// bounded stand-ins
+	var boundedOut []map[string]interface{}
+	for _, bt := range cfg.BoundedTests {
+		t0 := time.Now()
+		lim := 120
+		if *tier == "thorough" {
+			lim = 600
+		}
+		st, out := runBoundedTest(bt.File, bt.Pkg, bt.Run, lim)
+		boundedOut = append(boundedOut, map[string]interface{}{"name": bt.Name, "bound": bt.Bound, "status": st, "seconds": round3(time.Since(t0).Seconds()), "test": bt.File, "run": "go test -overlay <" + bt.Pkg + "/zz_verif_bounded_test.go -> " + bt.File + "> -vet=off -run " + bt.Run + " ./" + bt.Pkg})
+		switch st {
+		case "fail":
+			path := writeReplay(*prop, "bounded:"+bt.Name, "bounded check "+bt.Name+" fails on this tree (bound: "+bt.Bound+")\nreplay: cd "+repoDir+" && go test -overlay <ov.json mapping "+bt.Pkg+"/zz_verif_bounded_test.go to "+filepath.Join(verifDir, bt.File)+"> -vet=off -count=1 -run "+bt.Run+" ./"+bt.Pkg+"\n\n"+out, "")
+			fmt.Printf("VIOLATION property=%s replay=%s\n", *prop, path)
+			violations++
+		case "error":
+			path := writeReplay(*prop, "bounded:"+bt.Name, "bounded check "+bt.Name+" cannot be built or run on this tree (the code it exercises changed shape)\n\n"+out, "")
+			fmt.Printf("VIOLATION property=%s replay=%s no-failing-input-found\n", *prop, path)
+			violations++
+		}
+	}
 	for _, g := range genFailed {
 		path := writeReplay(*prop, "contract:"+g[0], "the contract of "+g[0]+" cannot be generated from this tree's body: "+g[1]+
 			"\nThe "+g[2]+" contract clauses of this function that were discharged on the reference tree are no longer established (the code the contract describes - a loop, a local, a result - has changed shape); no counterexample is available.", "")
@@ -635,6 +666,7 @@ func cmdCheck(args []string) int {
 			"undecided":                undecided,
 			"not_claimed_open_finding": notClaimed,
 			"known_findings":           kfOut,
+			"bounded_checks":           boundedOut,
 			"tool_errors":              toolErrors,
 			"contract_files":           w.specs.files,
 			"note":                     cfg.Note,
